@@ -30,12 +30,13 @@ Inductive ty : Type :=
 | TKeyof (ro : bool) (t : ty)             (* keyof t / readonly t *)
 | TInfer (x : Z)
 | TParen (t : ty)
-| TFn (kind : Z) (ps : list ty) (ret : ty)   (* kind 0: (ps) => ret ; 1: new (ps) => ret ; 2: abstract new (ps) => ret ; ps are TParam *)
+| TFn (kind : Z) (tps : list ty) (ps : list ty) (ret : ty)   (* kind 0: <tps>(ps) => ret ; 1: new <tps>(ps) => ret ; 2: abstract new ... ; tps are TTParam, ps are TParam *)
+| TTParam (mods : list Z) (x : Z) (hc hd : bool) (c d : ty)   (* const in out x extends c = d   (mods: 0 const, 1 in, 2 out) *)
 | TParam (dots : bool) (x : Z) (opt ann : bool) (t : ty)   (* ...x?: t ; x < 0 is "this"; ann = false: no annotation *)
 | TAsserts (x : Z) (hasis : bool) (t : ty)   (* asserts x / asserts x is t  (return position only; x < 0 is "this") *)
 | TObj (ms : list ty)                     (* { members } ; members are TMProp / TMMeth / TMIndex / TMMapped *)
 | TMProp (keys : list Z) (opt : bool) (t : ty) (sep : Z)       (* readonly key?: t ;   sep 0 ";" 1 "," 2 none (last member) *)
-| TMMeth (keys : list Z) (opt : bool) (ps : list ty) (hasret : bool) (ret : ty) (sep : Z)
+| TMMeth (keys : list Z) (opt : bool) (tps : list ty) (ps : list ty) (hasret : bool) (ret : ty) (sep : Z)
                                            (* key?(ps): ret ; keys = [] is a call signature, [new] a construct signature, [get; x] an accessor *)
 | TMIndex (keys : list Z) (k : Z) (kt vt : ty) (sep : Z)       (* readonly [k: kt]: vt *)
 | TMMapped (pm1 : Z) (keys : list Z) (k : Z) (src : ty) (hasas : bool) (ast : ty) (pm2 : Z) (q : bool) (vt : ty) (sep : Z)
@@ -62,12 +63,13 @@ Section ty_ind'.
   Hypothesis HKeyof : forall ro t, P t -> P (TKeyof ro t).
   Hypothesis HInfer : forall x, P (TInfer x).
   Hypothesis HParen : forall t, P t -> P (TParen t).
-  Hypothesis HFn : forall k ps ret, Forall P ps -> P ret -> P (TFn k ps ret).
+  Hypothesis HFn : forall k tps ps ret, Forall P tps -> Forall P ps -> P ret -> P (TFn k tps ps ret).
+  Hypothesis HTParam : forall ms x hc hd c d, P c -> P d -> P (TTParam ms x hc hd c d).
   Hypothesis HParam : forall d x o a t, P t -> P (TParam d x o a t).
   Hypothesis HAsserts : forall x h t, P t -> P (TAsserts x h t).
   Hypothesis HObj : forall ms, Forall P ms -> P (TObj ms).
   Hypothesis HMProp : forall ks o t s, P t -> P (TMProp ks o t s).
-  Hypothesis HMMeth : forall ks o ps h ret s, Forall P ps -> P ret -> P (TMMeth ks o ps h ret s).
+  Hypothesis HMMeth : forall ks o tps ps h ret s, Forall P tps -> Forall P ps -> P ret -> P (TMMeth ks o tps ps h ret s).
   Hypothesis HMIndex : forall ks k kt vt s, P kt -> P vt -> P (TMIndex ks k kt vt s).
   Hypothesis HMMapped : forall p1 ks k src h ast p2 q vt s, P src -> P ast -> P vt -> P (TMMapped p1 ks k src h ast p2 q vt s).
   Hypothesis HCond : forall c e a b, P c -> P e -> P a -> P b -> P (TCond c e a b).
@@ -91,12 +93,13 @@ Section ty_ind'.
     | TKeyof ro t => HKeyof ro t (ty_ind' t)
     | TInfer x => HInfer x
     | TParen t => HParen t (ty_ind' t)
-    | TFn k ps ret => HFn k ps ret (go ps) (ty_ind' ret)
+    | TFn k tps ps ret => HFn k tps ps ret (go tps) (go ps) (ty_ind' ret)
+    | TTParam ms x hc hd c d => HTParam ms x hc hd c d (ty_ind' c) (ty_ind' d)
     | TParam d x o a t => HParam d x o a t (ty_ind' t)
     | TAsserts x h t => HAsserts x h t (ty_ind' t)
     | TObj ms => HObj ms (go ms)
     | TMProp ks o t s => HMProp ks o t s (ty_ind' t)
-    | TMMeth ks o ps h ret s => HMMeth ks o ps h ret s (go ps) (ty_ind' ret)
+    | TMMeth ks o tps ps h ret s => HMMeth ks o tps ps h ret s (go tps) (go ps) (ty_ind' ret)
     | TMIndex ks k kt vt s => HMIndex ks k kt vt s (ty_ind' kt) (ty_ind' vt)
     | TMMapped p1 ks k src h ast p2 q vt s => HMMapped p1 ks k src h ast p2 q vt s (ty_ind' src) (ty_ind' ast) (ty_ind' vt)
     | TCond c e a b => HCond c e a b (ty_ind' c) (ty_ind' e) (ty_ind' a) (ty_ind' b)
@@ -109,7 +112,7 @@ End ty_ind'.
    2 intersection, 3 type operator, 4 postfix, 5 primary *)
 Definition prec (t : ty) : Z :=
   match t with
-  | TCond _ _ _ _ | TPred _ _ | TFn _ _ _ | TAsserts _ _ _ => 0
+  | TCond _ _ _ _ | TPred _ _ | TFn _ _ _ _ | TAsserts _ _ _ => 0
   | TUnion _ _ => 1
   | TInter _ _ => 2
   | TKeyof _ _ | TInfer _ | TUnique => 3
@@ -135,7 +138,7 @@ Definition key_tk (c : Z) : tk :=
 Fixpoint ends_infer (t : ty) : bool :=
   match t with
   | TInfer _ => true
-  | TUnion _ b | TInter _ b | TKeyof _ b | TCond _ _ _ b | TPred _ b | TFn _ _ b => ends_infer b
+  | TUnion _ b | TInter _ b | TKeyof _ b | TCond _ _ _ b | TPred _ b | TFn _ _ _ b => ends_infer b
   | TAsserts _ true b => ends_infer b
   | _ => false
   end.
@@ -161,7 +164,7 @@ Fixpoint head_atomic (x : ty) : bool :=
   match x with
   | TArr y | TIdx y _ | TUnion y _ | TInter y _ | TCond y _ _ _ => head_atomic y
   | TPrim | TThis | TRef _ _ _ | TLit _ | TUnique | TInfer _ | TPred _ _ | TTypeof _ _ _ | TImport _ _ _ | TTemplate _ => true
-  | TFn k _ _ => 1 <=? k
+  | TFn k _ _ _ => 1 <=? k
   | _ => false
   end.
 Definition paren_content_ok (t : ty) : bool := head_atomic t.
@@ -181,11 +184,18 @@ Fixpoint wf_params_with (ps : list ty) : bool :=
   | TParam _ x _ ann t :: r => bind_ok x && (if ann then w t else true) && wf_params_with r
   | _ => false
   end.
+Fixpoint wf_tparams_with (tps : list ty) : bool :=
+  match tps with
+  | [] => true
+  | TTParam ms x hc hd c d :: r =>
+      forallb (fun m => (0 <=? m) && (m <=? 2)) ms && normal x && (if hc then w c else true) && (if hd then w d else true) && wf_tparams_with r
+  | _ => false
+  end.
 Definition wf_member_with (last : bool) (m : ty) : bool :=
   match m with
   | TMProp ks _ t s => match ks with [] => false | _ => true end && w t && sep_ok last s
-  | TMMeth ks o ps h ret s =>
-      (match ks with [] => negb o | _ => true end) && wf_params_with ps && (if h then wf_ret_with ret else true) && sep_ok last s
+  | TMMeth ks o tps ps h ret s =>
+      (match ks with [] => negb o | _ => true end) && wf_tparams_with tps && wf_params_with ps && (if h then wf_ret_with ret else true) && sep_ok last s
   | TMIndex ks k kt vt s => normal k && w kt && w vt && sep_ok last s
   | TMMapped p1 ks k src h ast p2 q vt s =>
       pm_ok p1 && pm_ok p2 && normal k && w src && (if h then w ast else true) && w vt && sep_ok last s
@@ -214,11 +224,12 @@ Fixpoint wfb (t : ty) : bool :=
   | TKeyof _ t => wfb t && (3 <=? prec t)
   | TInfer x => normal x
   | TParen t => wfb t && paren_content_ok t
-  | TFn k ps ret => (0 <=? k) && (k <=? 2) && wf_params_with wfb ps && wf_ret_with wfb ret
+  | TFn k tps ps ret => (0 <=? k) && (k <=? 2) && wf_tparams_with wfb tps && wf_params_with wfb ps && wf_ret_with wfb ret
+  | TTParam _ _ _ _ _ _ => false
   | TParam _ _ _ _ _ => false
   | TAsserts _ _ _ => false
   | TObj ms => wf_members_with wfb ms
-  | TMProp _ _ _ _ | TMMeth _ _ _ _ _ _ | TMIndex _ _ _ _ _ | TMMapped _ _ _ _ _ _ _ _ _ _ => false
+  | TMProp _ _ _ _ | TMMeth _ _ _ _ _ _ _ | TMIndex _ _ _ _ _ | TMMapped _ _ _ _ _ _ _ _ _ _ => false
   | TCond c e a b => wfb c && (1 <=? prec c) && negb (ends_infer c) && wfb e && (1 <=? prec e) && nc_ok e && wfb a && wfb b
   | TPred x t => bind_ok x && wfb t
   | TTemplate ts => match ts with [] => false | _ => forallb wfb ts end
@@ -266,6 +277,11 @@ Fixpoint R (t : ty) (post : toks) : toks :=
     | [] => post
     | _ => tk1 KLt :: join [tk1 KComma] (map R args) (push_gt post)
     end in
+  let tparams := fun (tps : list ty) (post : toks) =>
+    match tps with
+    | [] => post
+    | _ => tk1 KLt :: join [tk1 KComma] (map R tps) (push_gt post)
+    end in
   let params := fun (ps : list ty) (post : toks) =>
     tk1 KLParen :: join [tk1 KComma] (map R ps) (tk1 KRParen :: post) in
   match t with
@@ -290,9 +306,13 @@ Fixpoint R (t : ty) (post : toks) : toks :=
   | TKeyof ro t => tk1 (KIdent (if ro then c_readonly else c_keyof)) :: R t post
   | TInfer x => tk1 (KIdent c_infer) :: tk1 (KIdent x) :: post
   | TParen t => tk1 KLParen :: R t (tk1 KRParen :: post)
-  | TFn k ps ret =>
+  | TFn k tps ps ret =>
       (if k =? 2 then [tk1 (KIdent c_abstract); tk1 KNew] else if k =? 1 then [tk1 KNew] else []) ++
-      params ps (tk1 KArrow :: R ret post)
+      tparams tps (params ps (tk1 KArrow :: R ret post))
+  | TTParam ms x hc hd c d =>
+      map (fun m => tk1 (if m =? 0 then KConst else if m =? 1 then KIn else KIdent c_out)) ms ++
+      tk1 (KIdent x) :: (if hc then tk1 KExtends :: R c (if hd then tk1 KEq :: R d post else post)
+                         else if hd then tk1 KEq :: R d post else post)
   | TParam d x o ann t =>
       (if d then [tk1 KDotDotDot] else []) ++ tk1 (bind_tk x) :: optq o ++
       (if ann then tk1 KColon :: R t post else post)
@@ -300,8 +320,8 @@ Fixpoint R (t : ty) (post : toks) : toks :=
       tk1 (KIdent c_asserts) :: tk1 (bind_tk x) :: (if h then tk1 (KIdent c_is) :: R t post else post)
   | TObj ms => tk1 KLBrace :: join [] (map R ms) (tk1 KRBrace :: post)
   | TMProp ks o t s => keys_toks ks (optq o ++ tk1 KColon :: R t (sep_toks s ++ post))
-  | TMMeth ks o ps h ret s =>
-      keys_toks ks (optq o ++ params ps (if h then tk1 KColon :: R ret (sep_toks s ++ post) else sep_toks s ++ post))
+  | TMMeth ks o tps ps h ret s =>
+      keys_toks ks (optq o ++ tparams tps (params ps (if h then tk1 KColon :: R ret (sep_toks s ++ post) else sep_toks s ++ post)))
   | TMIndex ks k kt vt s =>
       keys_toks ks (tk1 KLBrack :: tk1 (KIdent k) :: tk1 KColon :: R kt (tk1 KRBrack :: tk1 KColon :: R vt (sep_toks s ++ post)))
   | TMMapped p1 ks k src h ast p2 q vt s =>
